@@ -111,6 +111,21 @@ def main():
             for off, d in f._ext:
                 regions.append((off, off + min(len(d), 2048 if len(d) <= 65536 else 64)))
             bases.append((json.dumps(sp)[:300], data, regions, lambda fh, sp=sp, mod=mod: mod.open_real(fh, sp)))
+    elif fmt == "qcow2":
+        # QCOW2 images (standard and extended L2) without external files: the unmutated image first (run computation over every bitmap pattern
+        # the generator produces), then the word mutations of header and tables
+        mod = importlib.import_module("replay.fmt_qcow2")
+        from dissect.hypervisor.disk.qcow2 import QCow2
+
+        specs = [sp for sp in mod.gen_specs(rng, n * 8) if not sp.get("datafile") and sp.get("backing") is None and not sp.get("big_base")][:n * 2]
+        for sp in specs:
+            img = mod.build(sp)[0]
+            if img.size > (6 << 20):
+                continue
+            img.seek(0)
+            data = img.read()
+            regions = [(0, 112)] + [(off, off + min(len(d), 512)) for off, d in img._ext if off > 0 and not callable(d)][:6]
+            bases.append((json.dumps(sp)[:300], data, regions, QCow2))
     elif fmt == "hyperv":
         from dissect.hypervisor.descriptor.hyperv import HyperVFile
 
@@ -122,6 +137,14 @@ def main():
                 regions = [(0, 64), (0x1000, 0x1040), (0x2000, 0x2000 + 18 * 12 + 8)]
                 # first key table: located through the object table of the unmutated file
                 bases.append((name, data, regions, HyperVFile))
+        # generated containers with a chained object table that also lists the first one again (mutual reference): must open (or raise), never loop
+        from replay import hyperv_corpus as hc
+
+        for _ in range(3):
+            tree = hc.gen_tree(rng, 2, 3, big_ok=False)
+            opts = {"free_rate": 0.2, "stale_rate": 0.5, "second_object_table": True, "distractors": 2, "other_header": "older", "active_slot": rng.choice([0, 1]), "back_reference": True}
+            data = hc.build(rng, tree, rng.choice([1, 2]), opts)
+            bases.append(("generated tree with mutually referencing object tables", data, [(0x2000, 0x2000 + 8 + 18 * 6)], HyperVFile))
     elif fmt == "hddxml":
         import tempfile
         from pathlib import Path
@@ -210,7 +233,9 @@ def main():
     fails = []
     t0 = time.time()
     for desc, data, regions, opener in bases:
-        for mdesc, mdata in mutations(data, regions, rng):
+        import itertools
+
+        for mdesc, mdata in itertools.chain([("unmutated", data)], mutations(data, regions, rng)):
             if time.time() - t0 > budget or any(f["kind"] == "timeout" for f in fails):
                 break
             evals += 1
